@@ -118,6 +118,7 @@ void constructCommon(ModelSignature model,
 
     bool recovered_main = false; // the main file already holds the current state, no need to rewrite it
     if (!filename.empty()){ // recover from an existing checkpoint
+        TasmanianSparseGrid original_grid(grid); // a failed read leaves the grid empty
         std::ifstream infile(filename, std::ios::binary);
         try{ // attempt to recover from filename
             if (!infile.good()) throw std::runtime_error("missing main checkpoint");
@@ -133,6 +134,7 @@ void constructCommon(ModelSignature model,
                 complete.read(oldfile);
             }catch(std::runtime_error &){
                 // nothing could be recovered, start over from the current grid
+                grid.copyGrid(&original_grid);
             }
         }
     }
